@@ -474,7 +474,9 @@ func run(e *core.Env) {
 	// who runs at every lock boundary of the session; either may be refused (it lost the race
 	// for the key change), but afterwards the receiver must be where the sender is: the next
 	// frames of the new epoch unseal.
-	if !link && tp.Chance(1, 4) {
+	// (Only where moving the counter forward cannot repeat a number already used under the
+	// current key: after the main run wrapped, or when it started far below the wrap.)
+	if !link && (rolled || off <= 0) && tp.Chance(1, 3) {
 		sh.ReglSetOut(0xFFFFFFFF - uint32(3+tp.Intn(6)))
 		sealReg := func(k int) *sealedFrame {
 			f, _ := S.Inst.Builder.NewFrameV1(S.IP, R.IP, frame.NetworkTraffic, nil, []byte(fmt.Sprintf("two workers at the wrap, frame %d ......", k)), nil)
@@ -486,9 +488,32 @@ func run(e *core.Env) {
 			f.ReturnToPool()
 			return sf
 		}
+		sealPrioFrame := func(k int) *sealedFrame {
+			f, _ := S.Inst.Builder.NewFrameV1(S.IP, R.IP, frame.RouterCtrl, nil, []byte(fmt.Sprintf("two workers at the wrap, priority frame %d", k)), nil)
+			if err := f.Seal(sSess); err != nil {
+				return nil // (the priority class may have been wrapped by the scenario before)
+			}
+			d, _ := f.FrameDataWithMargins(0, 0)
+			sf := &sealedFrame{prio: true, seq: f.SequenceNum(), data: append([]byte(nil), d...)}
+			f.ReturnToPool()
+			return sf
+		}
+		// in half of the cases the frame in flight at the wrap is a priority frame of the old key
+		var prioOld *sealedFrame
+		if tp.Chance(1, 2) {
+			prioOld = sealPrioFrame(0)
+		}
 		var fs []*sealedFrame
 		for k := 0; k < 14; k++ {
 			fs = append(fs, sealReg(k))
+		}
+		var prioNew []*sealedFrame
+		if prioOld != nil {
+			for k := 1; k <= 3; k++ {
+				if sf := sealPrioFrame(k); sf != nil {
+					prioNew = append(prioNew, sf)
+				}
+			}
 		}
 		lastOld := -1
 		for i, sf := range fs {
@@ -503,13 +528,23 @@ func run(e *core.Env) {
 				}
 			}
 			var errOld, errNew error
+			inFlight := fs[lastOld]
+			if prioOld != nil {
+				// the last regular frame of the old key is delivered first; the priority frame of
+				// the old key is the one that races with the key change
+				if err := deliver(fs[lastOld]); err != nil {
+					e.Fail("fresh-frame-refused/in-order/before-the-wrap", "frame number %d before the wrap does not unseal: %v", fs[lastOld].seq, err)
+				}
+				inFlight = prioOld
+				e.Probe("priority_frame_in_flight_at_the_wrap")
+			}
 			st := simsync.RunTasks(func(n, cur int) int {
 				if cur >= 0 && !tp.Chance(1, 2) {
 					return cur
 				}
 				return tp.Intn(n)
 			}, []func(){
-				func() { errOld = deliver(fs[lastOld]) },
+				func() { errOld = deliver(inFlight) },
 				func() { errNew = deliver(fs[lastOld+1]) },
 			})
 			if st.Deadlock {
@@ -528,6 +563,15 @@ func run(e *core.Env) {
 					e.Fail("fresh-frame-refused/two-receive-workers-at-the-wrap",
 						"the last frame of the old epoch (result: %v) and the first of the new one (result: %v) were unsealed by two workers at once; afterwards frame number %d of the new epoch does not unseal: %v",
 						errOld, errNew, sf.seq, err)
+				}
+			}
+			if errNew == nil {
+				for _, sf := range prioNew {
+					if err := deliver(sf); err != nil {
+						e.Fail("fresh-frame-refused/two-receive-workers-at-the-wrap",
+							"a priority frame of the old epoch (result: %v) and the first regular frame of the new one were unsealed by two workers at once; afterwards priority frame number %d of the new epoch does not unseal: %v",
+							errOld, sf.seq, err)
+					}
 				}
 			}
 			e.Probe("two_receive_workers_at_the_wrap")
